@@ -111,6 +111,9 @@ func sysH(s *simrt.Sim, t *simrt.Task, r *simrt.Req) simrt.Status {
 	} else {
 		ret = -1
 		args = "(faulted)"
+		if (op == opFsync || op == opFdatasync) && errno == syscall.EIO {
+			k.failSync(int(r.I0))
+		}
 	}
 	if fault != "" {
 		s.Faults[fault+":"+opNames[op]]++
